@@ -3,8 +3,9 @@
 * an abbreviation AST ("operator skeleton"), JSON-serialisable:
       item  = ['e', head, rep, children]      an element; rep is None or an int; children = [item...]
             | ['g', rep, children]            a group `( ... )`
-      head  = {'name': str|None, 'id': str, 'cls': [str...], 'attrs': [[key, value]...], 'text': str}
-              (every key optional; an element without a name is an *implicit* one)
+      head  = {'name': str|None, 'id': str, 'cls': [str...], 'attrs': [[key, value]...], 'text': str, 'close': bool}
+              (every key optional; an element without a name is an *implicit* one; 'close' writes a
+              trailing `/`; a head with nothing but 'text' is a text-only node -- used by C15 only)
 * print_abbr(): the abbreviation text written FROM the AST (`>`, `+`, `^`, groups, `*N`)
 * denote(): the element forest the operators denote (the C01 statement, executable)
 * parse_markup(): a small independent tag parser for the produced markup
@@ -87,6 +88,8 @@ def head_str(h):
         s += '[' + ' '.join(k + _attr_value(v) for k, v in h['attrs']) + ']'
     if h.get('text') is not None:
         s += '{' + h['text'] + '}'
+    if h.get('close'):
+        s += '/'
     return s
 
 
@@ -271,7 +274,8 @@ def first_difference(exp, got, path='/'):
         e, g = exp[i], got[i]
         if e[0] != g[0]:
             return 'element at %s is <%s>, expected <%s>' % (here, g[0], e[0])
-        if e[1] != g[1] or e[2] != g[2]:
+        # an id the abbreviation did not write may still be added by a built-in snippet (select, textarea)
+        if (e[1] is not None and e[1] != g[1]) or e[2] != g[2]:
             return 'element <%s> at %s carries id/class %r/%r, expected %r/%r' % (e[0], here, g[1], g[2], e[1], e[2])
         d = first_difference(e[3], g[3], here + '/')
         if d:
